@@ -2,6 +2,7 @@ package checks
 
 import (
 	"fmt"
+	"reflect"
 	"strings"
 	"testing"
 
@@ -23,7 +24,7 @@ func judgeC01(c *core.Case, cfg *core.Config) core.Verdict {
 	mode := c.Str("mode")
 	var rlog, ilog []string
 	ref := core.RefEval(x, spec.Build(&rlog), core.RefOpts{Excl: cfg.Excl, Untyped: mode != "typed"})
-	v := core.Verdict{Key: c.Source + "|" + spec.Digest() + fmt.Sprint(opt, mode)}
+	v := core.Verdict{Key: c.Source + "|" + spec.Digest() + fmt.Sprint(opt, mode, c.Str("directive"))}
 	if ref.Fail != nil {
 		if strings.HasPrefix(ref.Fail.Class, "excluded:") || ref.Fail.Class == "toolong" {
 			v.Skip = ref.Fail.Class
@@ -56,6 +57,14 @@ func judgeC01(c *core.Case, cfg *core.Config) core.Verdict {
 		if mode == "typed" {
 			opts = append(opts, expr.Env(core.Env{}))
 		}
+		switch c.Str("directive") {
+		case "int64":
+			opts = append(opts, expr.AsInt64())
+		case "float64":
+			opts = append(opts, expr.AsFloat64())
+		case "bool":
+			opts = append(opts, expr.AsBool())
+		}
 		prog, cerr := compile(c.Source, opts...)
 		if cerr != nil {
 			if opt && core.HasConstDivZero(x) {
@@ -64,6 +73,11 @@ func judgeC01(c *core.Case, cfg *core.Config) core.Verdict {
 			}
 			if mode == "typed" && x.HasDynamic() {
 				v.Skip = "checker-conservative-on-dynamic-operand"
+				return v
+			}
+			if c.Str("directive") == "bool" && strings.Contains(cerr.Error(), "expected bool, but got") {
+				// AsBool demands a statically boolean expression (pinned by ExampleAsBool_error)
+				v.Skip = "asbool-needs-static-bool"
 				return v
 			}
 			v.Violation = fmt.Sprintf("Compile(%s, opt=%v) rejects a well-typed expression: %s", mode, opt, firstLine(cerr.Error()))
@@ -93,6 +107,18 @@ func judgeC01(c *core.Case, cfg *core.Config) core.Verdict {
 		}
 	} else {
 		v.Classes = append(v.Classes, "outcome:ok")
+		want := ref.Value
+		if d := c.Str("directive"); d != "" && mode != "eval" && want != nil {
+			// AsInt64 / AsFloat64: the result is the value converted to that type, whatever produced it
+			rv := reflect.ValueOf(want)
+			switch {
+			case d == "int64" && rv.Type().ConvertibleTo(reflect.TypeOf(int64(0))) && rv.Kind() != reflect.String:
+				ref.Value = rv.Convert(reflect.TypeOf(int64(0))).Interface()
+			case d == "float64" && rv.Type().ConvertibleTo(reflect.TypeOf(float64(0))) && rv.Kind() != reflect.String:
+				ref.Value = rv.Convert(reflect.TypeOf(float64(0))).Interface()
+			}
+			v.Classes = append(v.Classes, "directive:"+d)
+		}
 		if err != nil {
 			v.Violation = fmt.Sprintf("reference = %s but the run fails: %s", core.Show(ref.Value), firstLine(err.Error()))
 			return v
@@ -152,6 +178,16 @@ func genC01(t *rapid.T, cfg *core.Config, order bool, biased ...bool) *core.Case
 	c.Source = p.Print(x)
 	c.P["opt"] = rapid.Bool().Draw(t, "opt")
 	c.P["mode"] = mode
+	dir := ""
+	if mode != "eval" && rapid.IntRange(0, 3).Draw(t, "dir") == 0 {
+		switch {
+		case x.Ty.IsNum():
+			dir = rapid.SampledFrom([]string{"int64", "float64"}).Draw(t, "directive")
+		case x.Ty.K == core.KBool:
+			dir = "bool"
+		}
+	}
+	c.P["directive"] = dir
 	return c
 }
 
